@@ -34,13 +34,18 @@ pub fn run_case(toks: &[&str], em: &mut Emitter) {
     em.alloc_limit = 4 * (w * h * 4) + 2 * data.len() + 65536;
     em.case(&line, move || {
         let ev = BitmapEvent { dest_left: 0, dest_top: 0, dest_right: 0, dest_bottom: 0, width: w as u16, height: h as u16, bpp, is_compress: c, data };
-        match ev.decompress() {
+        // the buffers requested inside the call (requests of >= 256 bytes, summed): compared by
+        // ./check with the model's allocation trace (`allocTrace`, theorems c08_alloc_*)
+        crate::alloc_count::reset_sum();
+        let res = ev.decompress();
+        let am = crate::alloc_count::sum();
+        match res {
             Ok(out) => {
-                let mut o = Obs::new(format!("ok {}", show_out(&out))).nt(!out.is_empty()).tag(if c { "compressed" } else { "raw" });
+                let mut o = Obs::new(format!("ok {} am={}", show_out(&out), am)).nt(!out.is_empty()).tag(if c { "compressed" } else { "raw" });
                 if out.len() != w * h * 4 { o = o.viol(&format!("decompress returned {} bytes for a {}x{} bitmap (expected {})", out.len(), w, h, w * h * 4)); }
                 o
             }
-            Err(_) => Obs::new("E".into()),
+            Err(_) => Obs::new(format!("E am={}", am)),
         }
     });
     em.alloc_limit = 0;
